@@ -2,7 +2,7 @@
 #![allow(dead_code, unused_imports)]
 use super::*;
 use crate::bmc::bmca::verif_bmca::{best_age, best_identity, best_message};
-use crate::bmc::bmca::BestAnnounceMessage;
+use crate::bmc::bmca::{BestAnnounceMessage, RecommendedState};
 use crate::datastructures::common::PortIdentity;
 use crate::datastructures::messages::AnnounceMessage;
 use crate::port::verif_port::common::*;
@@ -161,6 +161,79 @@ fn c05_bmca_one_port() {
     kani::cover!(dec1 == DEC_P1, "passive beside a better low-class master");
     kani::cover!(slave_only && v1.code == ST_MASTER && w1.code == ST_LISTENING, "run-time slave-only demotes a master");
     kani::cover!(dec1 == DEC_NONE, "listening port without Erbest stays");
+    core::mem::forget(p1);
+}
+
+// @harness c08_apply_recommendation
+// @props C08:quick C05:quick C12:quick C03:thorough
+// @tier quick
+// @variant lists2
+// @stubbing yes
+// @timeout 1200
+// @mem 8
+// @functions Port::set_recommended_state, Port::set_recommended_port_state, Port::set_forced_port_state
+// @bounds one port in an arbitrary prior state (all five, Slave with arbitrary remote and slots), master-only flag, delay mechanism, multiport-disable age; own data set fully symbolic (incl. slave-only); the recommendation is ANY of M1 / M2 / M3 / P1 / P2 / S1 (S1 only for a port that is not master-only - the decision harnesses show no other port receives it) carrying a fully symbolic Announce (stepsRemoved < 255); announce interval 1 s
+// @assume core::mem::swap replaced by a loop-free equivalent (common.rs: swap_stub)
+// @assume oracle: statime's documented port-state rules (expected_port), the same oracle as c05_bmca_one_port / c05_bmca_two_ports
+// @note decouples the application of a decision from its computation: a one-port instance can never be handed M3 or P2 (they need an Ebest from another port), so the quick one-port BMCA harness does not reach those arms; here every arm is applied from every port state
+#[kani::proof]
+#[kani::unwind(9)]
+#[kani::stub(core::mem::swap, crate::port::verif_port::common::swap_stub)]
+fn c08_apply_recommendation() {
+    let state = any_state(0);
+    state.poke().default_ds.number_ports = 1;
+    let mut c1 = PortCfg::any();
+    c1.port_number = 1;
+    let s1 = any_port_state(any_port_identity());
+    let mut p1 = mk_inbmca(&state, c1, RecClock::quiet(), any_filter_cfg(), s1);
+    set_multiport(&mut p1, if kani::any() { Some(any_duration_bits(64)) } else { None });
+    let v1 = view(&p1);
+    let pre_default = state.peek().default_ds;
+    let pre_current = state.peek().current_ds;
+    let pre_parent = state.peek().parent_ds.clone();
+    let slave_only = pre_default.slave_only;
+    let dec: u8 = kani::any();
+    kani::assume(dec >= DEC_M1 && dec <= DEC_S1);
+    kani::assume(dec != DEC_S1 || !c1.master_only);
+    let m = any_announce();
+    kani::assume(m.steps_removed < 255);
+    let rec = match dec {
+        DEC_M1 => RecommendedState::M1(pre_default),
+        DEC_M2 => RecommendedState::M2(pre_default),
+        DEC_M3 => RecommendedState::M3(m),
+        DEC_P1 => RecommendedState::P1(m),
+        DEC_P2 => RecommendedState::P2(m),
+        _ => RecommendedState::S1(m),
+    };
+    state.with_mut(|s| {
+        p1.set_recommended_state(rec, &mut s.path_trace_ds, &mut s.time_properties_ds, &mut s.current_ds, &mut s.parent_ds, &s.default_ds)
+    });
+    let r1 = Some(m.header.source_port_identity);
+    let x1 = expected_port(v1.code, v1.remote, dec, r1, slave_only, v1.multiport.is_some());
+    let w1 = view(&p1);
+    assert!(w1.code == x1.0, "C05: port state after applying the recommendation differs from the prescribed state");
+    if slave_only { assert!(w1.code != ST_MASTER, "C08: a port of a slave-only instance is master after a BMCA decision was applied"); }
+    if c1.master_only && v1.code != ST_SLAVE { assert!(w1.code != ST_SLAVE, "C08: master-only port became slave"); }
+    if w1.code == ST_SLAVE && dec == DEC_S1 { assert!(w1.remote == r1 && (!x1.1 || w1.slots_empty), "C05: slave port does not track the selected parent"); }
+    if dec != DEC_S1 { assert!(w1.code != ST_SLAVE, "C08: port is slave after a decision other than S1"); }
+    let t1 = take_pending(&mut p1);
+    let ok = match x1.2 {
+        0 => t1.none(),
+        1 => t1.n == 2 && t1.reset_receipt == 1 && t1.reset_delay == 1 && t1.dur_delay.as_secs() == 0,
+        2 => t1.n == 1 && t1.reset_receipt == 1,
+        _ => t1.n == 2 && t1.reset_announce == 1 && t1.reset_sync == 1 && t1.dur_announce.as_secs() == 0 && t1.dur_sync.as_secs() == 0,
+    };
+    assert!(ok, "C12: state change without the timers that keep the new state alive");
+    let post = state.peek();
+    assert!(post.default_ds == pre_default);
+    if dec == DEC_M3 || dec == DEC_P1 || dec == DEC_P2 {
+        assert!(post.current_ds == pre_current && post.parent_ds == pre_parent, "C05: data sets changed without an M1/M2/S1 decision");
+    }
+    assert!(w1.clock_cmds == 0);
+    kani::cover!(dec == DEC_M3 && slave_only && v1.code == ST_MASTER && w1.code == ST_LISTENING, "M3 demotes the master port of a slave-only instance");
+    kani::cover!(dec == DEC_M3 && !slave_only && w1.code == ST_MASTER && v1.code != ST_MASTER, "M3 makes a master");
+    kani::cover!(dec == DEC_P2 && w1.code == ST_PASSIVE && v1.code == ST_MASTER, "P2 makes a master passive");
+    kani::cover!(dec == DEC_S1 && w1.code == ST_SLAVE && v1.code != ST_SLAVE, "S1 makes a slave");
     core::mem::forget(p1);
 }
 
